@@ -61,6 +61,12 @@ case "$ID" in
     fi
     exec mc/target/checked/tmc check "$ID" --tier "$TIER"
     ;;
+  C12|C11)
+    build checked
+    # ICU4X (debug assertions on) prints a data-error line on stderr for every unknown calendar name
+    mc/target/checked/tmc check "$ID" --tier "$TIER" 2> >(grep -v "^ICU4X data error" >&2)
+    exit $?
+    ;;
   *)
     build checked
     exec mc/target/checked/tmc check "$ID" --tier "$TIER"
